@@ -24,6 +24,7 @@ import ClipperVerif.Driver.AddPaths
 import ClipperVerif.Driver.C10Isect
 import ClipperVerif.Driver.AelOrder
 import ClipperVerif.Driver.AelRings
+import ClipperVerif.Driver.C06Joins
 namespace Clipper.Driver
 open Clipper.Proto
 
@@ -53,7 +54,8 @@ def handlers : List (String → Option (P String)) := [
   AddPaths.handle,
   C10Isect.handle,
   AelOrder.handle,
-  AelRings.handle
+  AelRings.handle,
+  C06Joins.handle
 ]
 
 def dispatch1 (cmd : String) : Option (P String) :=
